@@ -308,7 +308,10 @@ end pool
     series  := <labels>@<chunks>                       labels := <name>=<value> (',' …)* | _
     frame   := S<series> | W<msg> | H<payload> | B<series> ('&' <series>)* | B
     sframe  := <0|1><frame>                            1 = the proxy-side shard matcher keeps the frame
-    store   := <supportsSharding><supportsWithout><openErr>:<n | r<k> | h<k>>:<recvMsg>,<timeoutMsg>,<openMsg>:<sframe (';' sframe)* | ->
+    store   := <supportsSharding><supportsWithout><openErr>[kind]:<n | r<k>[kind] | h<k>>:<recvMsg>,<timeoutMsg>,<openMsg>:<sframe (';' sframe)* | ->
+    kind    := p | g | d | u | w | c | e    which error the failing call returns: plain (default), gRPC status, context deadline,
+                                            io.ErrUnexpectedEOF, an error wrapping io.EOF (%w), a type with Is(io.EOF) = true, io.EOF itself
+                                            (only io.EOF itself, from Recv, is the end of the stream: `isEnd`)
     stores  := store ('|' store)* | -
   ops:
     lt.merge <maxVal> <ints (',') per sequence, sequences separated by '|'>   pkg/losertree on integers
@@ -390,25 +393,46 @@ def parseSFrame? (s : String) : Option (Frame × Bool) :=
   | '1' :: r => (parseFrame? (String.ofList r)).map (·, true)
   | _ => none
 
-def parseFailure? (s : String) : Option Failure :=
+/-- error kinds of a scripted failure: p plain error, g gRPC status error, d context.DeadlineExceeded,
+    u io.ErrUnexpectedEOF, w an error wrapping io.EOF (%w), c an error type with Is(io.EOF) = true,
+    e io.EOF itself -/
+def parseErrKind? : Char → Option RecvError
+  | 'p' | 'g' | 'd' | 'u' => some { isEOF := false, chainEOF := false }
+  | 'w' | 'c' => some { isEOF := false, chainEOF := true }
+  | 'e' => some { isEOF := true, chainEOF := true }
+  | _ => none
+
+def parseFailure? (s : String) : Option (Failure × RecvError) :=
   match s.toList with
-  | ['n'] => some .none
-  | 'r' :: r => (parseNat? (String.ofList r)).map .recvErr
-  | 'h' :: r => (parseNat? (String.ofList r)).map .hang
+  | ['n'] => some (.none, {})
+  | 'r' :: r =>
+    match r.reverse with
+    | k :: d => if k.isDigit then (parseNat? (String.ofList r)).map (fun n => (.recvErr n, {}))
+                else do
+                  let e ← parseErrKind? k
+                  let n ← parseNat? (String.ofList d.reverse)
+                  pure (.recvErr n, e)
+    | [] => none
+  | 'h' :: r => (parseNat? (String.ofList r)).map (fun n => (.hang n, {}))
   | _ => none
 
 def parseStore? (s : String) : Option Store :=
   match splitChar ':' s with
   | [flags, fail, msgs, frames] =>
-    match flags.toList.mapM (fun c => parseBool? (String.singleton c)), splitChar ',' msgs with
+    -- an optional 4th flag character is the error kind of the failing Series() call: the open path
+    -- has no end-of-stream test, every kind is a failure
+    let flagChars := flags.toList
+    if flagChars.length = 4 && (parseErrKind? (flagChars.getD 3 'x')).isNone then none else
+    match (flagChars.take 3).mapM (fun c => parseBool? (String.singleton c)), splitChar ',' msgs with
     | some [sh, wo, oe], [m1, m2, m3] => do
-      let fail ← parseFailure? fail
+      if flagChars.length > 4 then none
+      let (fail, rerr) ← parseFailure? fail
       let m1 ← bytesOfHex? m1
       let m2 ← bytesOfHex? m2
       let m3 ← bytesOfHex? m3
       let frames ← (listOf ';' frames).mapM parseSFrame?
       pure { supportsSharding := sh, supportsWithout := wo, openErr := oe, failure := fail, frames := frames,
-             recvMsg := m1, timeoutMsg := m2, openMsg := m3 }
+             recvMsg := m1, timeoutMsg := m2, openMsg := m3, recvError := rerr }
     | _, _ => none
   | _ => none
 
@@ -481,7 +505,7 @@ def handleMerge : List String → Option String
     let stores ← (listOf '|' stores).mapM parseStore?
     let rq : Request := { fixedDedup := fixedDedup, lazy := lazy, batchSize := batch, limit := limit, abort := abort, dedup := dd,
                           sharded := sharded, without := without }
-    let (out, oc) := proxySeries rq stores
+    let (out, oc) := proxySeriesSeen rq stores
     pure (match oc with
       | .ok => s!"ok {showOutcome out (!dd)}"
       | .aborted => "aborted"
@@ -499,7 +523,7 @@ def handleMerge : List String → Option String
     let dedupOn := qd && !replicas.isEmpty
     let rq : Request := { fixedDedup := fixedDedup, lazy := lazy, batchSize := batch, limit := 0, abort := abort, dedup := true,
                           sharded := sharded, without := if dedupOn then replicas else [] }
-    let r := selectFn rq stores
+    let r := selectFnSeen rq stores
     if r.failed then pure "err" else
     let ws := (sortStrs (r.warnings.map hexOfBytes)).eraseDups
     let n := if dedupOn then (if r.series.isEmpty then "0" else "+") else toString r.series.length
